@@ -1079,6 +1079,14 @@ private def numRefused (k : Kind) (v : Val) : Bool :=
   | some none => true
   | _ => false
 
+/-- the `endpoint` validation on IPv6 literals in brackets (`net.ParseIP`: `parseIPv6Ok`) -/
+example :
+    (["[::1]:80", "[::]:1", "[2001:db8::1]:8080", "[1:2:3:4:5:6:7:8]:80", "[1:2:3:4:5:6:7::]:80", "[::ffff:1.2.3.4]:443",
+      "[1:2:3:4:5:6:1.2.3.4]:80"].all fun e => endpointOk e.toList) = true ∧
+    (["[1:2:3:4:5:6:7:8:9]:80", "[1:2:3:4:5:6:7::8]:80", "[::1.2.3.04]:80", "[::1.2.3]:80", "[12345::]:80", "[g::]:80",
+      "[fe80::1%eth0]:80", "[1:::2]:80", "[:1]:80", "[1:]:80", "[1::2::3]:80", "[::1]:0", "[::1]:65536", "[::1]:", "[::1]",
+      "::1:80"].all fun e => !endpointOk e.toList) = true := by decide
+
 /-- C17_number_range: numbers at the edge of what a kind holds — stored as they are, or refused -/
 example :
     numHolds (.int 8) (.int 127) (.int 127) = true ∧ numRefused (.int 8) (.int 128) = true ∧
